@@ -29,7 +29,7 @@ RULE = ("kernel level: the full tie grid (every end point, every value exactly o
         "finite / infinite / per-dimension end points, rectangular and trapezoidal shapes, alpha and Huber parameters from a grid, all "
         "request spellings, NaN injected) plus a malformed stream; a case is distinct by the hash of (function, inputs, options) and "
         "non-trivial when it yields a finite value or exercises an error path")
-ASSUMPTIONS = ["fcst, obs and end-point arrays store shared coordinates in the same order (the other order is the recorded finding consistent-quantile-coord-order)",
+ASSUMPTIONS = ["random cases: fcst, obs and end-point arrays store shared coordinates in one common (shuffled) order; other orders are covered by deterministic cases (end-point arrays: recorded finding tw-endpoint-array-coord-order)",
                "each end-point pair is given as two scalars, two arrays, or (scalar, array) -- (array, scalar) is the recorded finding tw-endpoint-array-scalar"]
 TRUSTED = ["R-level theorems (coq/proofs/C10_RInt*.v): Coq Reals + Coquelicot 3.x and their standard axioms, as listed per theorem"]
 
@@ -415,32 +415,53 @@ def pointwise_props(ctx, rounds):
 
 
 def coord_order_finding(ctx):
-    """fcst and obs holding a shared coordinate in different storage order: results must not depend on it"""
+    """results must not depend on the storage order of a shared coordinate (deterministic regression cases + recorded findings)"""
     C = S()
     f = xr.DataArray([1.0, 2.0, 3.0], dims=["b"], coords={"b": [2, 0, 1]})
     o = xr.DataArray([1.0, 0.5, 3.0], dims=["b"], coords={"b": [0, 1, 2]})
     o_same = o.sel(b=f.b)
+    # fcst / obs in different order: repaired in /repo by 5f9b684 (consistent_quantile_score); a regression is a violation
     calls = [("consistent_quantile_score", lambda ob: C.consistent_quantile_score(f, ob, 0.25, lambda x: x)),
              ("tw_quantile_score", lambda ob: C.tw_quantile_score(f, ob, 0.25, (0, 2))),
              ("tw_absolute_error", lambda ob: C.tw_absolute_error(f, ob, (0, 2))),
              ("consistent_expectile_score", lambda ob: C.consistent_expectile_score(f, ob, 0.25, lambda x: x ** 2, lambda x: 2 * x)),
+             ("consistent_huber_score", lambda ob: C.consistent_huber_score(f, ob, 1.0, lambda x: x ** 2, lambda x: 2 * x)),
+             ("tw_squared_error", lambda ob: C.tw_squared_error(f, ob, (0, 2))),
+             ("tw_expectile_score", lambda ob: C.tw_expectile_score(f, ob, 0.25, (0, 2))),
              ("tw_huber_loss", lambda ob: C.tw_huber_loss(f, ob, 1.0, (0, 2)))]
     for name, call in calls:
         want = core.call_impl(call, o_same)
         got = core.call_impl(call, o)
         ctx.case(("coord-order", name))
-        same = want[0] == got[0] and (want[0] == "err" or abs(float(want[1]) - float(got[1])) < 1e-12)
+        same = want[0] == got[0] == "ok" and abs(float(want[1]) - float(got[1])) < 1e-12
         if not same:
-            ctx.violation(f"{name} depends on the storage order of a shared coordinate", {"fn": name, "fcst": gens.da_repr(f), "obs": gens.da_repr(o)},
-                          str(want[1]), str(got[1]),
-                          finding_key="consistent-quantile-coord-order" if name in ("consistent_quantile_score", "tw_quantile_score", "tw_absolute_error") else None)
+            ctx.violation(f"{name} depends on the storage order of a coordinate shared by fcst and obs",
+                          {"fn": name, "fcst": gens.da_repr(f), "obs": gens.da_repr(o)}, str(want[1]), str(got[1]))
+    # per-dimension end-point arrays stored in another order than fcst / obs
+    A = xr.DataArray([0.0, -1.0, 1.0], dims=["b"], coords={"b": [1, 2, 0]})
+    B = A + 2
+    A0, B0 = A.sel(b=f.b), B.sel(b=f.b)
+    for name, args in (("tw_quantile_score", (0.25,)), ("tw_squared_error", ()), ("tw_absolute_error", ()), ("tw_expectile_score", (0.25,)), ("tw_huber_loss", (1.0,))):
+        fn = getattr(C, name)
+        for pos in (False, True):
+            kw0 = {"interval_where_positive": (A0 - 1, B0 + 1)} if pos else {}
+            kw1 = {"interval_where_positive": (A - 1, B + 1)} if pos else {}
+            want = core.call_impl(fn, f, o_same, *args, (A0, B0), **kw0)
+            got = core.call_impl(fn, f, o_same, *args, (A, B), **kw1)
+            ctx.case(("endpoint-order", name, pos))
+            same = want[0] == got[0] == "ok" and abs(float(want[1]) - float(got[1])) < 1e-12
+            if not same:
+                ctx.violation(f"{name} depends on the storage order of the coordinate of a per-dimension end-point array",
+                              {"fn": name, "fcst": gens.da_repr(f), "obs": gens.da_repr(o_same), "interval_where_one": [gens.da_repr(A), gens.da_repr(B)], "trapezoidal": pos},
+                              str(want[1]), str(got[1]), finding_key="tw-endpoint-array-coord-order" if got[0] == "err" and got[1] == "err:ValueError" else None)
     # (array, scalar) end-point pair
-    A = xr.DataArray([0.0, -1.0], dims=["z"], coords={"z": [0, 1]})
-    want = core.call_impl(C.tw_quantile_score, f, o_same, 0.25, (A, xr.DataArray(2.0)))
-    got = core.call_impl(C.tw_quantile_score, f, o_same, 0.25, (A, 2.0))
+    Z = xr.DataArray([0.0, -1.0], dims=["z"], coords={"z": [0, 1]})
+    want = core.call_impl(C.tw_quantile_score, f, o_same, 0.25, (Z, xr.DataArray(2.0)))
+    got = core.call_impl(C.tw_quantile_score, f, o_same, 0.25, (Z, 2.0))
     ctx.case(("endpoint-array-scalar",))
-    if want[0] != got[0]:
-        ctx.violation("tw_* with an (array, scalar) end-point pair", {"interval_where_one": "(DataArray, 2.0)"}, want[0], str(got[1]), finding_key="tw-endpoint-array-scalar")
+    if not (want[0] == got[0] == "ok" and np.allclose(want[1].values, got[1].values)):
+        ctx.violation("tw_* with an (array, scalar) end-point pair", {"interval_where_one": "(DataArray over z, 2.0)"}, str(want[1])[:80], str(got[1]),
+                      finding_key="tw-endpoint-array-scalar" if got[0] == "err" and got[1] == "err:Other" else None)
 
 
 # ------------------------------------------------------------------------------------------
